@@ -32,6 +32,7 @@ type Recorder struct {
 	failN   int   // fail the next failN writes
 	failErr error
 	onWrite func(TxFrame)
+	after   func(TxFrame)
 	rx      chan []byte
 	closed  chan struct{}
 	once    sync.Once
@@ -50,12 +51,24 @@ func (r *Recorder) FailNext(n int, err error) { r.mu.Lock(); r.failN, r.failErr 
 
 var ErrInjected = errors.New("injected write error")
 
+// AfterWrite installs a responder called, without the recorder lock, before WriteTo returns to the library: a peer that
+// answers faster than the sender gets back from its write.
+func (r *Recorder) AfterWrite(f func(TxFrame)) { r.mu.Lock(); r.after = f; r.mu.Unlock() }
+
 func (r *Recorder) WriteTo(b []byte, addr net.Addr) (int, error) {
+	n, f, after, err := r.writeTo(b, addr)
+	if err == nil && after != nil {
+		after(f)
+	}
+	return n, err
+}
+
+func (r *Recorder) writeTo(b []byte, addr net.Addr) (int, TxFrame, func(TxFrame), error) {
 	r.mu.Lock()
 	defer r.mu.Unlock()
 	if r.failN > 0 {
 		r.failN--
-		return 0, r.failErr
+		return 0, TxFrame{}, nil, r.failErr
 	}
 	f := TxFrame{Seq: r.seq, T: time.Now(), Data: append([]byte(nil), b...)}
 	r.seq++
@@ -67,7 +80,7 @@ func (r *Recorder) WriteTo(b []byte, addr net.Addr) (int, error) {
 	if r.onWrite != nil {
 		r.onWrite(f)
 	}
-	return len(b), nil
+	return len(b), f, r.after, nil
 }
 
 // Take returns and clears the recorded frames.
